@@ -982,7 +982,7 @@ func TestRouterStateMachine(t *testing.T) {
 		t.Fatal(err)
 	}
 	defer func() { _ = flag.Set("rapid.steps", "30") }()
-	vlib.Check(t, 6000, func(t *rapid.T) {
+	vlib.Check(t, 9000, func(t *rapid.T) {
 		n := rapid.IntRange(2, 5).Draw(t, "n")
 		idx := rapid.SliceOfNDistinct(rapid.IntRange(0, len(idPool)-1), n, n, rapid.ID[int]).Draw(t, "members")
 		bd := waitBound()
